@@ -35,12 +35,18 @@ def run(ctx):
     for b in falses:
         requires(ctx, fc, b, [r'^\((settings|self\.current_settings@Some\.0)\.receive_maximum_from_server as usize <= HashMap::len\(self\.pending_publish_operations\)\)$',
                               r'^HashMap::get\(self\.operations, id\) is Some$', r'\.packet is Publish$', r'^!\(.*\.qos == QualityOfService::AtMostOnce\{\}\)$'], 'pred|recvmax', 'blocking the head operation', loc=fc.loc(b))
+    RMX = r'^\((settings|self\.current_settings@Some\.0)\.receive_maximum_from_server as usize <= HashMap::len\(self\.pending_publish_operations\)\)$'
+    ra = prims.rets_after(fc, [RMX, r'\.packet is Publish$', r'^!\(.*\.qos == QualityOfService::AtMostOnce\{\}\)$'])
+    ctx.ob(ra == {'False'}, 'completeness: at the receive maximum a QoS>0 publish at the head is always blocked (outcomes after the three tests: %s)' % sorted(ra or []), 'pred|recvmax-complete', loc=fc.loc())
     th = ctx.fn('ProtocolState::should_external_operations_be_slow_start_throttled')
     tr = [b for b, e in prims.ret_variants(th) if show(e) == 'True']
     for b in tr:
         requires(ctx, th, b, [r'^!\(self\.config\.post_reconnect_queue_drain_policy != PostReconnectQueueDrainPolicy::OneAtATime\{\}\)$|^\(self\.config\.post_reconnect_queue_drain_policy == PostReconnectQueueDrainPolicy::OneAtATime\{\}\)$',
                               r'^\(self\.state == ProtocolStateType::Connected\{\}\)$', r'^!\(self\.slow_start_ack_count == 0\)$'], 'pred|slowstart', 'throttling', loc=th.loc(b))
     ctx.floor(len(tr), 1, 'throttle-true outcomes')
+    rt = prims.rets_after(th, [r'^!\(self\.config\.post_reconnect_queue_drain_policy != PostReconnectQueueDrainPolicy::OneAtATime\{\}\)$|^\(self\.config\.post_reconnect_queue_drain_policy == PostReconnectQueueDrainPolicy::OneAtATime\{\}\)$',
+                                r'^\(self\.state == ProtocolStateType::Connected\{\}\)$', r'^!\(self\.slow_start_ack_count == 0\)$'])
+    ctx.ob(rt == {'True'}, 'completeness: OneAtATime + Connected + interrupted count != 0 always throttles (%s)' % sorted(rt or []), 'pred|slowstart-complete', loc=th.loc())
     hp = ctx.fn('ProtocolState::has_pending_ack')
     flds = prims.self_fields_read(F, hp, 0)
     ctx.ob(flds == {'pending_publish_operations', 'pending_non_publish_operations'}, 'has_pending_ack looks at both ack tables (%s)' % sorted(flds), 'pred|pendingack', loc=hp.loc())
